@@ -8,7 +8,7 @@ ops (names are opaque tokens):
   register <name> <counter|gauge|histogram|updown>
   increment <name> | count <name> <n> | gauge <name> <v> | histogram <name> <v>
   up <name> | down <name> | store <name> <v>
-  get <name>                      obs: none | some:<integer>
+  get <name>                      obs: none | some:<float token>   (<v> above is a float token too, see below)
   conc <g> <item>,<item>,…        item = <i|c|u|d>*<reps>*<n>*<name>; obs: done
       the model applies the multiset in the listed order: by `conc_order_independent` every
       linearisation of these atomic adds gives the same readings.
@@ -60,6 +60,48 @@ def parseItems (s : String) : Option (List (Op String)) :=
     | some l, some l' => some (l ++ l')
     | _, _ => none) (some [])
 
+/-! ## Float tokens
+
+`Gauge`/`Histogram`/`Store` payloads and `get` answers are canonical *tokens* produced by the
+harness (`fmtFloat`): `nan`, `+inf`, `-inf`, an exact decimal integer, or `x<16 hex digits>` (the
+`math.Float64bits` of a value that is not a finite integer: fractions, subnormals, -0).  The code
+stores and returns such a payload verbatim, so the model's payload type (`Int`) is used as an
+opaque token: `parseTok` is an injection of tokens into `Int` — integers are themselves, the other
+tokens lie above `tokBase = 2^1100`, beyond every finite float64 — and `tokStr` is its inverse.
+No float arithmetic or float comparison happens here. -/
+
+def tokBase : Int := 2 ^ 1100
+
+def hexVal (c : Char) : Option Nat :=
+  if '0' ≤ c ∧ c ≤ '9' then some (c.toNat - '0'.toNat)
+  else if 'a' ≤ c ∧ c ≤ 'f' then some (c.toNat - 'a'.toNat + 10)
+  else none
+
+def parseHex (cs : List Char) : Option Nat :=
+  if cs.length != 16 then none
+  else cs.foldl (fun acc c => match acc, hexVal c with
+    | some a, some d => some (a * 16 + d)
+    | _, _ => none) (some 0)
+
+def parseTok (s : String) : Option Int :=
+  if s == "nan" then some tokBase
+  else if s == "+inf" then some (tokBase + 1)
+  else if s == "-inf" then some (tokBase + 2)
+  else match s.toList with
+    | 'x' :: cs => (parseHex cs).map (fun b => tokBase + 3 + (b : Int))
+    | _ => s.toInt?
+
+def hex16 (n : Nat) : String :=
+  let ds := Nat.toDigits 16 n
+  String.ofList (List.replicate (16 - ds.length) '0' ++ ds)
+
+def tokStr (v : Int) : String :=
+  if v < tokBase then toString v
+  else if v == tokBase then "nan"
+  else if v == tokBase + 1 then "+inf"
+  else if v == tokBase + 2 then "-inf"
+  else "x" ++ hex16 (v - tokBase - 3).toNat
+
 inductive Parsed where
   | one (op : Op String)
   | burst (ops : List (Op String))
@@ -69,11 +111,11 @@ def parseOp : List String → Parsed
   | ["register", n, ty] => match parseType ty with | some t => .one (.register n t) | none => .bad
   | ["increment", n] => .one (.increment n)
   | ["count", n, d] => match d.toInt? with | some d => .one (.count n d) | none => .bad
-  | ["gauge", n, v] => match v.toInt? with | some v => .one (.gauge n v) | none => .bad
-  | ["histogram", n, v] => match v.toInt? with | some v => .one (.histogram n v) | none => .bad
+  | ["gauge", n, v] => match parseTok v with | some v => .one (.gauge n v) | none => .bad
+  | ["histogram", n, v] => match parseTok v with | some v => .one (.histogram n v) | none => .bad
   | ["up", n] => .one (.up n)
   | ["down", n] => .one (.down n)
-  | ["store", n, v] => match v.toInt? with | some v => .one (.store n v) | none => .bad
+  | ["store", n, v] => match parseTok v with | some v => .one (.store n v) | none => .bad
   | ["get", n] => .one (.get n)
   | ["conc", g, items] =>
     match g.toNat?, parseItems items with
@@ -83,7 +125,7 @@ def parseOp : List String → Parsed
 
 def optStr : Option Int → String
   | none => "none"
-  | some v => s!"some:{v}"
+  | some v => "some:" ++ tokStr v
 
 /-- state: (`keep` flag of the model, store).  `keep` is false (the code as it is) unless the case
 header says `register=keep` (used to check the proposed repair against the repaired model). -/
@@ -169,7 +211,7 @@ def expected (r : Rec) : String × Option Int × Option Int × Bool :=
 def parseObs (o : String) : Option (Option Int) :=
   if o == "none" then some none
   else match o.splitOn ":" with
-    | ["some", v] => v.toInt?.map some
+    | ["some", v] => (parseTok v).map some
     | _ => none
 
 def mMon (m : MSt) (op : List String) (_ : List (List String)) (obs : Option String) : MSt × List Fail :=
